@@ -33,16 +33,16 @@ def is_viol(r):
 # cases
 # ------------------------------------------------------------------------------------------------------------------
 def make_cases(seed, n, prefix):
-    """deterministic batch: 50% grammar programs, 20% targeted templates, 30% byte/token mutations of valid programs"""
+    """deterministic batch: 45% grammar programs, 30% targeted templates, 25% byte/token mutations of valid programs"""
     rng = random.Random(seed)
     out = []
     for k in range(n):
         q = rng.random()
-        if q < 0.50:
+        if q < 0.45:
             g = G.Gen(rng)
             src = g.program().encode("utf-8")
             kind, feats = "grammar", g.feat
-        elif q < 0.70:
+        elif q < 0.75:
             g, s = G.targeted(rng)
             src = s.encode("utf-8", "surrogateescape")
             kind, feats = "targeted", g.feat
@@ -58,8 +58,9 @@ def make_cases(seed, n, prefix):
             kind = "mutation"
         iname, inp = G.console_input(rng)
         tr = rng.choice(G.TRAITS)
-        out.append(dict(id="%s_%d" % (prefix, k), traits=tr, flags="-", src=src, inp=inp, kind=kind,
-                        feats=sorted(feats | {"in:" + iname, "tr:" + tr, "k:" + kind})))
+        fl = "d" if rng.random() < 0.15 else "-"
+        out.append(dict(id="%s_%d" % (prefix, k), traits=tr, flags=fl, src=src, inp=inp, kind=kind,
+                        feats=sorted(feats | {"in:" + iname, "tr:" + tr, "k:" + kind} | ({"deparse"} if fl == "d" else set()))))
     return out
 
 
@@ -618,16 +619,52 @@ def cli_family(ctx, libdir):
             else:
                 opts += [rng.choice(["--numstrdetect=off", "--flexmap=on", "--tolerant=on", "--strictnaming=on", "-t", "-n"])]
         cases.append((opts, rng.choice(progs)))
+    # more of the front end: script files (-f, twice, missing, empty), --, operands (files, var=value assignments, empty, "-"),
+    # -c entry function, -d deparse file, -t console output, -m memory limit, -I include dirs, encodings, --modlibdirs garbage
+    sdir = os.path.join(ctx.scratch, "cli")
+    os.makedirs(sdir, exist_ok=True)
+    files = {"p1.hawk": "BEGIN { x = 1 } { n++ } END { print n, x, y }\n", "p2.hawk": "function main(a, b) { print a, b, @argc; return 3; }\nfunction g() { return 1 }\n",
+             "p3.hawk": "@include \"p2.hawk\";\nBEGIN { print g() }\n", "empty.hawk": "", "bad.hawk": "BEGIN { print 1 +", "in1.txt": "a b\nc d\n", "in2.txt": "no newline at end"}
+    for fn, txt in files.items():
+        with open(os.path.join(sdir, fn), "w") as f:
+            f.write(txt)
+    P = lambda x: os.path.join(sdir, x)    # noqa: E731
+    operands = [P("in1.txt"), P("in2.txt"), P("nofile"), "", "-", "y=5", "NF=-1", "FS=a(", "=", "y=", "9=1", "y=1=2", "--", "-v", "OFS=:", "\u00e9=1", P("in1.txt") + "=x", sdir]
+    extra = []
+    for o in operands:
+        extra.append(([], "{ print FILENAME, NR, y, $1 } END { print NR, y }", [o]))
+        extra.append((["-f", P("p1.hawk")], None, [o, P("in1.txt")]))
+        extra.append((["-f", P("p1.hawk"), "--"], None, [P("in1.txt"), o]))
+    for fl in (["-f", P("p1.hawk"), "-f", P("p2.hawk")], ["-f", P("nofile")], ["-f", P("empty.hawk")], ["-f", P("bad.hawk")], ["-f", P("p3.hawk")], ["-f", P("p3.hawk"), "-I", sdir],
+               ["-f", P("p2.hawk"), "-c", "main"], ["-f", P("p2.hawk"), "-c", "nosuch"], ["-f", P("p2.hawk"), "--call=g"], ["-f", ""], ["-f"], ["-f", sdir],
+               ["-d", P("out.hawk"), "-f", P("p1.hawk")], ["-d", "/nonexistent/x", "-f", P("p2.hawk")], ["-d", "-", "-f", P("p3.hawk"), "-I", sdir], ["-t", P("con.out"), "-f", P("p1.hawk")],
+               ["-t", "/nonexistent/x", "-f", P("p1.hawk")], ["-m", "1", "-f", P("p1.hawk")], ["-m", "100000", "-f", P("p1.hawk")], ["-m", "abc", "-f", P("p1.hawk")], ["-m", "-5", "-f", P("p1.hawk")],
+               ["--modlibdirs=/nonexistent:\u00e9::", "-f", P("p1.hawk")], ["--modlibdirs=", "-f", P("p2.hawk")], ["--script-encoding=nosuch", "-f", P("p1.hawk")],
+               ["--console-encoding=utf8", "-f", P("p1.hawk")], ["--console-encoding=", "-f", P("p1.hawk")], ["--script-encoding=utf8", "-f", P("p3.hawk"), "--includedirs=" + sdir + ":/x"],
+               ["--classic", "-f", P("p2.hawk")], ["--modern", "--classic", "-f", P("p1.hawk")], ["--version"], ["-h"], ["--nosuchoption"], ["--flexmap=maybe", "-f", P("p1.hawk")],
+               ["--flexmap", "-f", P("p1.hawk")], ["-F"], ["-v"], ["--"], []):
+        extra.append((fl, None, [P("in1.txt"), "y=2", P("in2.txt")]))
+        extra.append((fl, None, []))
+    extra.append((["-f", P("p2.hawk"), "-c", "main"], None, ["a1", "", "\u00e9", "x" * 5000]))
+    extra.append((["-c", "main"], "function main(...) { return @argc }", ["1"] * 300))
+    for _ in range(40 if ctx.tier == "quick" else 600):
+        fl = []
+        for _ in range(rng.randrange(1, 4)):
+            fl += rng.choice([["-f", P(rng.choice(list(files)))], ["-c", rng.choice(["main", "g", "x", ""])], ["-d", P("o%d" % rng.randrange(3))], ["-m", rng.choice(["0", "1", "4096", "999999999999"])],
+                              ["-I", rng.choice([sdir, "", "/x:" + sdir])], ["--"], ["-v", "y=%s" % rng.choice(values)], ["-F", rng.choice(values)], ["-t", P("t%d" % rng.randrange(2))]])
+        extra.append((fl, rng.choice([None, progs[3]]), [rng.choice(operands) for _ in range(rng.randrange(0, 4))]))
+    cases += extra
     inp = b"a,b c\n1:2:3\n\n"
 
     def one_cli(c):
-        opts, prog = c
-        rc, out, err = C.sh(["timeout", "-s", "KILL", "20", hawk] + opts + [prog], timeout=30, input_=inp, env=ENV, cwd=ctx.scratch)
+        opts, prog = c[0], c[1]
+        ops = list(c[2]) if len(c) > 2 else []
+        rc, out, err = C.sh(["timeout", "-s", "KILL", "20", hawk] + opts + ([prog] if prog is not None else []) + ops, timeout=30, input_=inp, env=ENV, cwd=ctx.scratch)
         e = err.decode(errors="replace")
         bad = None
         if rc in (-9, 137):
             bad = "wedge:cli (no exit within 20 s)"
-        elif "AddressSanitizer" in e or "runtime error:" in e:
+        elif "ERROR: AddressSanitizer" in e or "runtime error:" in e:      # (a refused huge allocation only prints a WARNING and returns null)
             m = re.search(r"in (\w+) ", e)
             bad = "crash:cli:" + (m.group(1) if m else "sanitizer")
         elif rc < 0 or 128 <= rc < 255:      # 255 is hawk's own error exit (after printing the error)
@@ -641,12 +678,13 @@ def cli_family(ctx, libdir):
         if bad:
             hits.setdefault(bad, []).append((c, e))
     for sig, lst in sorted(hits.items()):
-        (opts, prog), e = min(lst, key=lambda x: len(" ".join(x[0][0])))
-        cmdline = "hawk " + " ".join("'%s'" % o for o in opts) + " '%s'" % prog
+        cc, e = min(lst, key=lambda x: len(" ".join(x[0][0]) + " ".join(x[0][2] if len(x[0]) > 2 else [])))
+        opts, prog = cc[0], cc[1]
+        cmdline = "hawk " + " ".join("'%s'" % o for o in opts) + (" '%s'" % prog if prog is not None else "") + "".join(" '%s'" % o for o in (cc[2] if len(cc) > 2 else []))
         ctx.problem("impl", "[%s] the command-line front end fails on %d option combination(s); smallest: %s" % (sig, len(lst), cmdline),
                     "# run the sanitized CLI built from /repo (vlib.common.build_libhawk) with stdin 'a,b c\\n1:2:3\\n\\n':\n%s\n# stderr:\n%s\n" % (cmdline, e[-3000:]),
                     found_input=True, sig=sig)
-    return len(cases), len({tuple(c[0]) for c in cases})
+    return len(cases), len({(tuple(c[0]), c[1], tuple(c[2]) if len(c) > 2 else ()) for c in cases})
 
 
 def run(ctx):
@@ -695,7 +733,7 @@ def run(ctx):
 
     # ---- campaign ----
     per = 120
-    deadline = max(time.time() + 12, t0 + 52) if ctx.tier == "quick" else t0 + 17 * 60
+    deadline = max(time.time() + 10, t0 + 44) if ctx.tier == "quick" else t0 + 17 * 60
     nbatch_cap = 520 if ctx.tier == "quick" else 6000
     samples, lost_total, secs = [], 0, []
     submitted = 0
@@ -730,7 +768,8 @@ def run(ctx):
             if s["lost"]:
                 ctx.log("batch lost %d results (harness rc=%s): %s" % (s["lost"], s["rc"], s["err"][-300:]))
             avg = sum(secs) / len(secs)
-            if time.time() + avg * 1.3 < deadline and submitted < nbatch_cap:
+            # a violating tree must not cost unbounded time: every unanswered halt is waited for HARD_MS; a dozen of them is enough evidence
+            if time.time() + avg * 1.3 < deadline and submitted < nbatch_cap and classes.get("WEDGE", 0) < 12:
                 submit()
     ctx.log("campaign: %d programs in %d batches, classes %s, %d distinct violation signatures (%.0fs)" % (
         evaluations, submitted, dict(sorted(classes.items())), len(viol), time.time() - t0))
@@ -817,8 +856,8 @@ def run(ctx):
                builtins_total=len(G.BUILTINS), guard_probes=cdist, guard_probe_differences=len(diffs), violation_signatures={k: len(v) for k, v in viol.items()},
                batches=submitted, lost_results=lost_total, cli_option_cases=ncli, cli_option_distinct=ncli_distinct, feature_uses=fdist if ctx.tier == "thorough" else "(thorough tier only)")
     return C.finish(ctx, [proof], evaluations, len(nontriv),
-                    "programs = corpus + seeded batches of 120 (50%% grammar programs over every statement/operator/value type/builtin/side-effect-free module "
-                    "function with mismatched argument types, 20%% templates aimed at the anchored sites with edge operands (incl. stack-pressure and failing write-back families), 30%% byte/token mutations) x 10 console "
+                    "programs = corpus + seeded batches of 120 (45%% grammar programs over every statement/operator/value type/builtin/side-effect-free module "
+                    "function with mismatched argument types, 30%% templates aimed at the anchored sites with edge operands (incl. stack-pressure and failing write-back families), 25%% byte/token mutations) x 10 console "
                     "input shapes x 5 trait sets, run in-process under ASan+UBSan+asserts with a statement heartbeat and halt-then-SIGKILL watchdog; oracle = "
                     "signal / sanitizer report / abort / failure with errnum 0 or empty message / halt unanswered for %d ms; plus guard-model probes compared "
                     "with the Lean driver; plus the CLI front end run with -v/-F/option combinations (built-in, duplicate, reserved and malformed names; regex and empty separators). distinct_nontrivial = distinct (program, traits, input) that parsed and executed >= 3 statements" % HARD_MS,
